@@ -61,7 +61,8 @@ class Rx:
         self.names = [f['name'] for f in self.adt['variants'][0]['fields']]
         need = ['parser', 'channel', 'note_num', 'velocity', 'gate', 'rising_gate', 'falling_gate', 'retrigger_mode',
                 'note_priority', 'held_down_notes'] + CONTROLLER_FIELDS
-        missing = [n for n in need if n not in self.names]
+        located = set(self.names) | set(self.adt.get('canon_paths') or {})
+        missing = [n for n in need if n not in located]
         if missing:
             raise InterpError('MonoMidiReceiver fields missing (anchor changed): %s' % missing)
 
@@ -92,7 +93,7 @@ class Rx:
         st.ctx.ranges[ch.term.as_single_atom()] = (Fr(0), Fr(15))
 
         def setf(name, v):
-            rx.fields[rx.names.index(name)] = v
+            rx.set(name, v)
         if gate is not None:
             setf('gate', BoolV(bconst(gate)))
         if rising is not None:
